@@ -870,6 +870,10 @@ public:
 	{
 		item<T> *space = 0;
 		long len = 0;
+		/* entries may be shared with a copy of this array */
+		if (this->length() && !this->detach()) {
+			return false;
+		}
 		for (item<T> *pos = this->begin(), *to = this->end(); pos != to; ++pos) {
 			T *c = pos->instance();
 			if (!c) {
@@ -1006,11 +1010,22 @@ public:
 		if (!ptr) {
 			return false;
 		}
+		/* elements may be shared with a copy of this array */
+		if (!this->detach() || !(ptr = unique_array<reference<T> >::get(pos))) {
+			return false;
+		}
 		ptr->set_instance(ref);
 		return true;
 	}
-	long clear(const T *ref = 0) const
+	long clear(const T *ref = 0)
 	{
+		/* elements may be shared with a copy of this array */
+		if (!this->length()) {
+			return 0;
+		}
+		if (!this->detach()) {
+			return -1;
+		}
 		reference<T> *ptr = this->begin();
 		long elem = 0;
 		
@@ -1034,6 +1049,10 @@ public:
 	}
 	void compact()
 	{
+		/* elements may be shared with a copy of this array */
+		if (!this->length() || !this->detach()) {
+			return;
+		}
 		::mpt::compact(span<void *>(reinterpret_cast<void **>(this->begin()), this->length()));
 	}
 protected:
